@@ -21,6 +21,9 @@ TABLE = [
             r'|^glm_op_(add|mul|div|mod|shl|shr|and)_(f32|i32|u32)_(vv|vs)_v4$|^glm_(lessThan|equal|notEqual)_(f32|i32)_v4$|^glm_(any|all|not)_v4$'),
     ('C02', r'^glm_(mul_m4x4_m4x4|mul_m3x3_v|mul_v_m4x4|transpose_m3x4|mul_m2x3_m3x2|outerProduct_3x2)_f32$|^glm_conv_m\dx\d_from_m\dx\d$|^glm_mul_m3x3_m3x3_u32$'),
     ('C17', r'^glm_ctor_(vec4_f32_from_2_1_1_f32|vec3_i32_from_1_2_f32_i32_f64_u32|mat\dx\d_(diag|scalars|columns)|quat_s_v)$'),
+    # quaternion operations (seed C15_3: dot(quat, quat) summed in storage order, so GLM_FORCE_QUAT_DATA_WXYZ changed its rounding)
+    ('C04', r'^glm_(quat_mul_vec3|quat_mul_quat|mat3_cast|mat4_cast|quat_cast_of_mat3_cast|conjugate|inverse_quat|dot_quat|length_quat|normalize_quat|cross_quat_quat|angleAxis|quat_from_euler|quat_from_two_vectors)_f32$'),
+    ('C13', r'^glm_quat_(lerp|mix|slerp)_f32$'),
 ]
 d = P.driver('c15', ['<glm/glm.hpp>'])
 incl = ['<glm/glm.hpp>']
@@ -94,7 +97,13 @@ STRUCT_RX = re.compile(r'^glm_conv_m|^glm_ctor_mat')
 STRUCT_QUICK_ALL = ('glm_conv_m4x4_from_m3x3', 'glm_ctor_mat3x3_diag')
 
 
+QUAT_RX = re.compile(r'^glm_(quat_|mat3_cast|mat4_cast|conjugate|inverse_quat|dot_quat|length_quat|normalize_quat|cross_quat|angleAxis)')
+
+
 def tier_of(cfg, n):
+    if QUAT_RX.match(n):
+        # quaternion operations: the storage-order configuration is the one that reaches other code in them; per change with cxx98 as well
+        return 'quick' if cfg in ('quat_wxyz', 'cxx98') else 'thorough'
     if re.search(r'mul_m4x4_m4x4|mul_m3x3_m3x3_u32', n):
         return 'thorough'
     if STRUCT_RX.match(n) and n not in STRUCT_QUICK_ALL:
@@ -136,7 +145,8 @@ for cfg, b in builds.items():
             for i in range(cnt):
                 ens.append(('same_%s_%d_as_default_build' % (on, i), beq(t, '%s[%d]' % (on, i), 'R_%s__o%d_%d(%s)' % (n, k, i, args))))
         sc = src_contracts.get(n)
-        req = list(sc.requires) if sc is not None else []
+        # requires of kind-R source contracts are real-arithmetic (Python) expressions: the relational clause is claimed for all argument values instead
+        req = list(sc.requires) if (sc is not None and sc.kind != 'R') else []
         if re.match(r'^glm_pack', n):
             # NaN components are outside every pack format's domain (the float->integer conversion of NaN is undefined)
             fl = [nm for (t, nm) in s['ins'] if t in ('float', 'double')]
